@@ -83,6 +83,25 @@ extern "C" void h_c12_session_key(unsigned long) {
     if (ka) verif_assert(*ka == direct, "C12: the session key is HMAC(shared secret, material of both public keys)");
     verif_reach("keyed");
 }
+// a second accepted handshake (same identities) after one end rotated: both ends must again hold the handshake-derived key
+extern "C" void h_c12_rehandshake(unsigned long) {
+    crypto::Key secret; nondet_bytes(secret.bytes.data(), 32, "shared_secret");
+    const std::uint32_t pub_a = nondet_u32("public_a"), pub_b = nondet_u32("public_b");
+    PeerId ida{}, idb{}; ida[0] = 1; idb[0] = 2;
+    const std::uint16_t interval = nondet_u16("rotation_interval_s"); verif_assume(interval >= 5 && interval <= 3600);
+    KeyManager at_a{std::chrono::seconds(interval)}, at_b{std::chrono::seconds(interval)};
+    const auto ma = node_snippet::make_handshake_material(pub_a, pub_b), mb = node_snippet::make_handshake_material(pub_b, pub_a);
+    const long long kS = 1000000000LL; long long ta = static_cast<long long>(nondet_u16("clock_a_s")) * kS, tb = static_cast<long long>(nondet_u16("clock_b_s")) * kS;
+    auto at = [](long long ns) { return std::chrono::steady_clock::time_point(std::chrono::nanoseconds(ns)); };
+    at_a.register_session_with_material(idb, secret, ma, at(ta)); at_b.register_session_with_material(ida, secret, mb, at(tb));
+    ta += static_cast<long long>(nondet_u16("advance_a_s") & 0x1FFF) * kS;
+    const bool rotated = at_a.rotate_if_needed(idb, at(ta)).has_value();
+    ta += static_cast<long long>(nondet_u8("gap_s")) * kS; tb += static_cast<long long>(nondet_u16("advance_b_s") & 0x1FFF) * kS;
+    at_a.register_session_with_material(idb, secret, ma, at(ta)); at_b.register_session_with_material(ida, secret, mb, at(tb));      // the tail of perform_handshake on both ends
+    const auto ka = at_a.current_key(idb), kb = at_b.current_key(ida);
+    verif_assert(ka.has_value() && kb.has_value() && *ka == *kb, "C12: after each accepted mutual handshake both ends hold the same session key");
+    if (rotated) verif_reach("rotated-between"); else verif_reach("not-rotated");
+}
 // ---------------------------------------------------------------- C39: two ends of one session, periodic ticks on each side
 extern "C" void h_c39_rotation(unsigned long ticks_a, unsigned long ticks_b) {
     crypto::Key secret; nondet_bytes(secret.bytes.data(), 32, "shared_secret");
